@@ -344,9 +344,12 @@ def run_end_to_end(ctx, prop):
 
     warnings.filterwarnings("ignore")
     rng = ctx.rng
-    for _ in range(ctx.n(6, 60)):
+    n_full = ctx.n(6, 60)
+    for _ in range(n_full + ctx.n(16, 160)):
         if ctx.out_of_time():
             break
+        # after the full solves: short speciation+selection runs (one worker) in which the estimator fails for ONE individual of the first selection
+        selfault = _ >= n_full
         nq = rng.choice([2, 2, 3])
         paulis = sorted({"".join(rng.choice("IXYZ") for _ in range(nq)) for _ in range(rng.randint(1, 4))})  # distinct: equal strings could cancel to the zero operator
         coeffs = [rng.randint(-4, 4) / 2 or 1.0 for _ in paulis]  # a zero operator is rejected by the primitives ("Empty observable")
@@ -365,12 +368,34 @@ def run_end_to_end(ctx, prop):
         tournament = rng.random() < 0.5
         seed = rng.randrange(2**31)
         sampler, estimator = fakes.ExactSampler(), fakes.ExactEstimator()
+        # a transient fault of the estimator in ONE evaluation (a failed backend job) in a quarter of the solves: the solve may raise that
+        # fault, but whatever it returns must still be consistent
+        fault_at = rng.randrange(2, 30) if rng.random() < 0.25 else None
+        if selfault:
+            psize, max_gen = rng.randint(3, 5), rng.randint(1, 2)
+            fault_at = rng.randint(1, psize)
+        if fault_at is not None:
+            class FaultyEstimator(fakes.ExactEstimator):
+                def __init__(s):
+                    super().__init__()
+                    s.calls = 0
+
+                def _run(s, pubs):
+                    with s.lock:
+                        s.calls += 1
+                        no = s.calls
+                    if no == fault_at:
+                        raise RuntimeError("injected fault: estimator job failed")
+                    return super()._run(pubs)
+
+            estimator = FaultyEstimator()
         # every third solve starts from a hand-made population whose individuals are pairwise different but hash-equal in pairs
         # (CPython: hash(-1.0) == hash(-2.0)): EVQEIndividual.__eq__ is hash equality, so dict/set based shortcuts would merge them
-        colliding = _ % 3 == 2
+        colliding = _ % 3 == 2 and not selfault
         inp = {"kind": "end_to_end", "nq": nq, "paulis": paulis, "coeffs": coeffs, "aux": aux_kind, "init": init is not None, "population": psize,
-               "max_gen": max_gen, "tournament": tournament, "seed": seed, "hash_colliding_population": colliding}
-        with ThreadPoolExecutor(max_workers=rng.choice([1, 3])) as ex:
+               "max_gen": max_gen, "tournament": tournament, "seed": seed, "hash_colliding_population": colliding, "estimator_fault_in_invocation": fault_at,
+               "speciation_and_selection_only": colliding or selfault}
+        with ThreadPoolExecutor(max_workers=1 if selfault else rng.choice([1, 3])) as ex:
             conf = EVQEMinimumEigensolverConfiguration(
                 configured_estimator=ConfiguredEstimatorV2(estimator=estimator, precision=None), configured_sampler=ConfiguredSamplerV2(sampler=sampler, shots=SHOTS),
                 pass_manager=None, optimizer=COBYLA(maxiter=rng.randint(2, 5)), optimizer_n_circuit_evaluations=None, max_generations=max_gen,
@@ -380,7 +405,7 @@ def run_end_to_end(ctx, prop):
                 use_tournament_selection=tournament, tournament_size=rng.randint(1, psize) if tournament else None, parallel_executor=ex,
                 mutually_exclusive_primitives=rng.random() < 0.5)
             solver = EVQEMinimumEigensolver(conf)
-            if colliding:
+            if colliding or selfault:
                 base = EVQEIndividual.random_individual(nq, 1, True, seed)
                 vals = list(base.parameter_values)
                 pop0 = []
@@ -390,6 +415,8 @@ def run_end_to_end(ctx, prop):
                     if k >= 2:
                         v[-1] = float(k)
                     pop0.append(EVQEIndividual(base.n_qubits, base.layers, tuple(v)))
+                if selfault:
+                    pop0 = [EVQEIndividual.random_individual(nq, rng.randint(1, 2), True, seed + k) for k in range(psize)]
                 # speciation and selection only: the first evaluation sees the hand-made population unchanged
                 from queasars.minimum_eigensolvers.evqe.evolutionary_algorithm.selection import EVQESelection
                 from queasars.minimum_eigensolvers.evqe.evolutionary_algorithm.speciation import EVQESpeciation
@@ -405,6 +432,9 @@ def run_end_to_end(ctx, prop):
             try:
                 res = solver.compute_minimum_eigenvalue_with_initial_state(op, aux, init)
             except Exception as e:  # noqa: BLE001
+                if fault_at is not None and "injected fault" in str(e):
+                    ctx.case(inp, nontrivial=False, tags=["end_to_end", "outcome:injected-fault-propagated"])
+                    continue
                 ctx.case(inp, nontrivial=False, tags=["end_to_end", "outcome:exc"])
                 if prop == "C05":
                     ctx.violate("an end-to-end solve raised " + type(e).__name__, inp, str(e)[:200], key="e2e-exc:" + type(e).__name__)
@@ -418,7 +448,7 @@ def run_end_to_end(ctx, prop):
 
         evals = res.population_evaluation_results
         TOL = 1e-9
-        if res.generations != len(evals) or res.generations != max_gen:
+        if res.generations != len(evals) or (res.generations != max_gen and fault_at is None):
             violate("generations differs from the number of recorded population evaluations (or from max_generations)", [res.generations, len(evals)])
         for g, e in enumerate(evals):
             inds = e.population.individuals
@@ -426,12 +456,16 @@ def run_end_to_end(ctx, prop):
                 violate("a recorded evaluation has a different number of values than individuals")
                 continue
             for i, ind in enumerate(inds):
-                if abs(_exact_expectation(init, ind, op) - e.expectation_values[i]) > TOL:
+                if e.expectation_values[i] is not None and abs(_exact_expectation(init, ind, op) - e.expectation_values[i]) > TOL:
                     violate("a recorded expectation value at index i does not belong to the individual at index i", {"generation": g, "index": i})
                     break
-            mn = min(e.expectation_values)
+            known = [v for v in e.expectation_values if v is not None]  # (the field is Optional per individual)
+            if not known:
+                violate("a recorded evaluation carries no expectation value at all", {"generation": g})
+                continue
+            mn = min(known)
             if e.best_expectation_value != mn or G.indiv_struct(e.best_individual) != G.indiv_struct(inds[list(e.expectation_values).index(mn)]):
-                violate("the best entry of a recorded evaluation is not the minimum of its values", {"generation": g})
+                violate("the best entry of a recorded evaluation is not the minimum of its values / not the individual that holds it", {"generation": g})
         bests = [e.best_expectation_value for e in evals]
         if res.eigenvalue != min(bests):
             violate("eigenvalue is not the smallest best-expectation value of the history", [res.eigenvalue, bests])
@@ -453,6 +487,6 @@ def run_end_to_end(ctx, prop):
         if not (len(evals) <= len(res.circuit_evaluations) <= len(evals) + 1):
             violate("not one evaluation-count entry per evaluated generation (plus at most one trailing)", res.circuit_evaluations)
         n_eval_pubs = len(estimator.pubs)
-        if sum(res.circuit_evaluations) + len(auxops) * (aux_kind != "none") != n_eval_pubs:
+        if fault_at is None and sum(res.circuit_evaluations) + len(auxops) * (aux_kind != "none") != n_eval_pubs:
             # every circuit evaluation the operators report is one estimator pub; the auxiliary evaluations are not reported
             violate("evaluation counts do not sum to the circuit evaluations actually requested from the estimator", [res.circuit_evaluations, n_eval_pubs])
